@@ -40,10 +40,16 @@ PROPS = {
             "configs": cfgs_with_san, "ub_is_violation": True},
     "C06": {"id": "C06", "source": "c06.cpp", "files": INT_VEC_FILES + SCALAR_FILES[:8] + ["include/avel/impl/Constants.hpp"], "min_configs": {"quick": 8, "thorough": 30},
             "configs": cfgs_scalar_sets},
+    "C07": {"id": "C07", "source": "c07.cpp", "files": INT_VEC_FILES + FLT_VEC_FILES + SCALAR_FILES, "min_configs": {"quick": 8, "thorough": 30}},
     "C02": {"id": "C02", "source": "c02.cpp", "files": INT_VEC_FILES + FLT_VEC_FILES, "min_configs": {"quick": 8, "thorough": 30}, "digest_binding": True},
 }
 
 MANIFEST_TEXT = {
+    "C07": {
+        "technique": "property-based testing: enumerated (all 8-bit pairs, all 2^W masks for W<=16, lattice cross products; all 16-bit pairs in thorough) + rapidcheck operands and masks against exact integer / bit-pattern oracles and validity predicates, per build configuration",
+        "level": "Generated-input search over masks x operand values for blend/keep/clear/min/max/minmax/clamp/abs/neg_abs/negate/average/midpoint/copysign, vector forms on all 40 types and the scalar overloads, in every configuration of the arm cover (quick) / lattice (thorough); integer oracles in __int128 (average = truncation of the exact sum halved, midpoint = a + trunc((b-a)/2)); float sign operations compared bit-for-bit incl. zeros, infinities, NaN payloads; float min/max/clamp by a validity predicate (bit-equal to an operand, numerically the right one, either zero accepted).",
+        "note": "Trusted: harness oracles, host CPU, compilers. Not compared: clamp lanes with lo == hi (lo/hi are ordered by the harness first), float min/max/clamp lanes with a NaN, and neg_abs of unsigned lanes >= 2^(bits-1) (AVEL reinterprets them as signed; the property does not fix the reading).",
+    },
     "C06": {
         "technique": "property-based testing: exhaustive 8/16-bit (quick) and 32-bit (thorough) element values, structured 64-bit patterns + rapidcheck, naive bit-loop oracle, constant-operand vs run-time differential, per build configuration and scalar instruction set",
         "level": "Generated-input search over every element value (8/16-bit exhaustive; 32-bit exhaustive in thorough; 64-bit single/two-bit/mask patterns, neighbours, complements + random) for each of the 11 bit functions a type provides (SFINAE probe), vector lanes and scalar overloads, in every configuration of the arm cover plus the scalar ladders {none,X86,POPCNT,LZCNT,BMI,BMI2} x {g++,clang++} x {-O1,-O2}; oracle = naive bit loops; relations popcount(x)+popcount(~x)==bits, byteswap involution, countl_zero+bit_width==bits; constant-operand phase makes latent UB observable as a wrong value.",
